@@ -53,6 +53,14 @@ def run_task(name):
                 nbad += 1
                 if os.environ.get("PYVC_STOP_FIRST"):
                     break
+        need = [o for o in out["obligations"] if o["status"] == "needs-finite"]
+        if need:
+            fctx = Ctx(finite=6)
+            task(fctx)
+            fobs = {ob["id"]: ob for ob in fctx.obligations}
+            for o in need:
+                r = verify.solve(fctx, fobs[o["id"]], 30000) if o["id"] in fobs else {"status": "unknown"}
+                o.update({k: r[k] for k in ("status", "solver", "time") if k in r})
         out["strfacts"] = len(ctx.strfacts)
         # failed obligations are re-posed over a finite universe of names, where a false VC has a counter-model
         # that z3 finds (DESIGN 3.4): `unknown` becomes `refuted` only with such a definite model
